@@ -175,13 +175,13 @@ PROPS = {
     ),
     "C18": dict(
         harnesses=[
-            dict(run="pkg/server/etcd.VerifC18Etcd", covers=["write-applied", "write-forwarded", "write-rejected", "read-served", "read-refused", "watch-served", "watch-forwarded", "watch-rejected"]),
+            dict(run="pkg/server/etcd.VerifC18Etcd", covers=["write-applied", "write-forwarded", "write-rejected", "read-served", "read-refused", "watch-served", "watch-forwarded", "watch-rejected", "stream-refused", "stream-served"]),
             dict(run="pkg/server/brain.VerifC18Brain", covers=["write-applied", "write-rejected", "read-served", "read-refused", "watch-served", "watch-rejected"]),
             dict(run="pkg/server/service/revision.VerifC18Sync", covers=["adopted", "refused"]),
             dict(run="pkg/server.VerifC18Status", covers=["adopted", "refused"]),
             dict(run="pkg/server/service/revision.VerifC18Concurrent", quick=dict(preempt=2), thorough=dict(preempt=3), covers=["done"], stress=5),
         ],
-        bounds=dict(quick="every handler of both APIs (etcd Txn x3 shapes, Range get/list/count/partitions, Watch; native Create/Update/Delete/Compact/Get/Range/Count/ListPartition/RangeStream/Watch) x {leader, follower} x {proxy on, off} x {leader reachable, unreachable}; watch start revision symbolic; the real revision syncer against a leader that answers with a symbolic revision / an error status / not at all / with its answer cut after the headers; the real syncer against the real /status handler of a node that is / is not leader (response writer with net/http's status contract); 2 concurrent follower reads sharing the real single-flight fetch while the leader commits a write (<= 2 scheduling delays)",
+        bounds=dict(quick="every handler of both APIs (etcd Txn x3 shapes, Range get/list/count/partitions, Watch; native Create/Update/Delete/Compact/Get/Range/Count/ListPartition/RangeStream/Watch) x {leader, follower} x {proxy on, off} x {leader reachable, unreachable}, with symbolic revisions (zero, old, far future, negative through the etcd API), limits, values and optional range ends in every request; watch start revision symbolic (a negative one is a streamed range read and must sync like any read); the real revision syncer against a leader that answers with a symbolic revision / an error status / not at all / with its answer cut after the headers; the real syncer against the real /status handler of a node that is / is not leader (response writer with net/http's status contract); 2 concurrent follower reads sharing the real single-flight fetch while the leader commits a write (<= 2 scheduling delays)",
                     thorough="3 scheduling delays for the concurrent reads; the handler enumeration is complete in both tiers"),
         outside="TLS / schema retry of the syncer (http only); the etcd proxy client; more than 2 concurrent follower reads",
     ),
@@ -209,7 +209,7 @@ PROPS = {
             dict(run="pkg/zzc20.VerifC20NoCrash", name="C20_single", quick=dict(requests=1, keylen=2), thorough=dict(requests=1, keylen=3), covers=["done"]),
             dict(run="pkg/zzc20.VerifC20NoCrash", name="C20_pairs", quick=dict(requests=2, keymenu=1), thorough=dict(requests=2, keylen=1), covers=["done"]),
         ],
-        bounds=dict(quick="every ordered pair of requests whose key is empty or an ordinary key (so that two emission sites of one metric — with the label sets of both the refused and the served shape — meet in one process), and one request through any of 14 handler groups of both APIs with keys/values/range ends of 0..2 arbitrary bytes (invalid UTF-8, bytes below the alphabet), symbolic 64-bit revisions and limits (zero, negative, far future), missing sub-messages, watches cancelled; real prometheus wrapper over a model of client_golang's panic rules; then a create + get must work",
+        bounds=dict(quick="every ordered pair of requests whose key is empty or an ordinary key (so that two emission sites of one metric — with the label sets of both the refused and the served shape — meet in one process), and one request through any of 14 handler groups of both APIs with keys/values/range ends of 0..2 arbitrary bytes (invalid UTF-8, bytes below the alphabet), symbolic 64-bit revisions and limits (zero, negative, far future), missing sub-messages, watches whose client goes away before or after the registration; real prometheus wrapper over a model of client_golang's panic rules; then a new watch, a create and a get must work and the watch must receive the create",
                     thorough="pairs with keys of 0..1 bytes; single requests with keys of 0..3 bytes"),
         outside="protobuf/gRPC decoding; resource exhaustion; more than 2 requests per process; metric emission sites not reached by these handlers (election callbacks, retry loop, compaction histories)",
     ),
@@ -237,6 +237,7 @@ PROPS = {
             dict(run="pkg/zzc19.VerifC19MemkvTTL", quick=dict(preempt=1, native_timer_ms=1300), thorough=dict(preempt=2, native_timer_ms=1300), covers=["done"], race=True, race_replay=True, stress=10),
             dict(run="pkg/zzc19.VerifC19Backend", quick=dict(preempt=1), thorough=dict(preempt=2), covers=["done"], race=True, race_replay=True, stress=40),
             dict(run=B + "VerifC19HubOverflow", quick=dict(preempt=1), thorough=dict(preempt=2), covers=["done"], race=True, race_replay=True, stress=40),
+            dict(run=B + "VerifC05Fanout", name="C19_fanout", quick=dict(watches=2, events=2), thorough=dict(watches=3, events=3), covers=["some-filtered", "done"], race=True, race_replay=True, stress=10),
             dict(run="pkg/zzc19.VerifC19FullBatch", quick=dict(writes=301, _loop=700), thorough=dict(writes=601, _loop=1300), covers=["done"], race=True, race_replay=True, stress=5),
         ],
         bounds=dict(quick="happens-before (vector clock) monitor over the explored schedules of: reader ∥ writer ∥ iterator on the in-memory engine (<= 2 delays); TTL expiry (timer goroutine) ∥ reader ∥ iterator (<= 1 delay); update ∥ {get, watch} / {list, count} / {compact, compact} on one node over the real in-memory adapter with the sequencer and fan-out threads in the schedule (<= 1 delay); one slow write holding the lowest pending revision while a full broadcast batch (300 events) of later writes completes, then one more write, with one watch (default schedule); the fan-out dropping an overflowing subscriber ∥ a new watch registering ∥ a watch being cancelled (<= 1 delay); maps are one abstract location each",
